@@ -2647,3 +2647,721 @@ func E11ReturnedScratch(c *core.Ctx, r *core.Report, fileSuffix string) {
 	r.Count("E11.slice-returning-functions", n)
 	r.Floor("E11.slice-returning-functions", 1)
 }
+
+// E11SVGSmooth: the smooth curve commands of ParseSVGPath follow the SVG rule for the implied control point.
+func E11SVGSmooth(c *core.Ctx, r *core.Report) {
+	r.Rule("E11.svg-smooth", "ParseSVGPath, cases S/s and T/t, evaluated symbolically for both letter cases and for a predecessor inside and outside the curve family (points as symbols, Add/Sub/Mul as terms, conditions on cmd and prevCmd decided): the first control point handed to CubeTo/QuadTo is the reflection 2·p0 − m of the remembered control point m when the previous command was C/c/S/s (resp. Q/q/T/t) and the current point p0 otherwise (SVG 1.1 §8.3.6–8.3.7), and after the case the remembered control point is the control point next to the end point of the curve just drawn")
+	p := c.MustPkg("")
+	info := p.TypesInfo
+	fd := core.MustFuncDecl(p, "ParseSVGPath")
+	r.Func("canvas.ParseSVGPath")
+	clauses := map[string]*ast.CaseClause{}
+	var cmdObj, prevObj types.Object
+	ast.Inspect(fd.Body, func(n ast.Node) bool {
+		sw, ok := n.(*ast.SwitchStmt)
+		if !ok || sw.Tag == nil {
+			return true
+		}
+		for _, cs := range sw.Body.List {
+			cc := cs.(*ast.CaseClause)
+			for _, e := range cc.List {
+				if v, ok := core.ConstInt(info, e); ok && v < 128 {
+					clauses[string(rune(v))] = cc
+					if id, ok := core.Unparen(sw.Tag).(*ast.Ident); ok {
+						cmdObj = core.ObjOf(info, id)
+					}
+				}
+			}
+		}
+		return true
+	})
+	// prevCmd: the byte variable compared with letters other than the switch tag inside the S case
+	if cc := clauses["S"]; cc != nil {
+		ast.Inspect(&ast.BlockStmt{List: cc.Body}, func(n ast.Node) bool {
+			if be, ok := n.(*ast.BinaryExpr); ok && be.Op == token.EQL {
+				if id, ok := core.Unparen(be.X).(*ast.Ident); ok {
+					if o := core.ObjOf(info, id); o != cmdObj {
+						if _, isConst := core.ConstInt(info, be.Y); isConst {
+							prevObj = o
+						}
+					}
+				}
+			}
+			return true
+		})
+	}
+	if prevObj == nil && cmdObj != nil {
+		// the variable that remembers the command for the next iteration: `prev = cmd`
+		ast.Inspect(fd.Body, func(n ast.Node) bool {
+			if as, ok := n.(*ast.AssignStmt); ok && as.Tok == token.ASSIGN && len(as.Lhs) == 1 && len(as.Rhs) == 1 {
+				if rid, ok := core.Unparen(as.Rhs[0]).(*ast.Ident); ok && core.ObjOf(info, rid) == cmdObj {
+					if lid, ok := as.Lhs[0].(*ast.Ident); ok && prevObj == nil {
+						prevObj = core.ObjOf(info, lid)
+					}
+				}
+			}
+			return true
+		})
+	}
+	if clauses["S"] == nil || clauses["T"] == nil || cmdObj == nil || prevObj == nil {
+		panic(core.Infra("E11.svg-smooth: S/T cases or the prevCmd variable of ParseSVGPath not found"))
+	}
+	type sym = map[types.Object]string
+	var term func(e ast.Expr, env sym) string
+	term = func(e ast.Expr, env sym) string {
+		e = core.Unparen(e)
+		switch x := e.(type) {
+		case *ast.Ident:
+			o := core.ObjOf(info, x)
+			if v, ok := env[o]; ok {
+				return v
+			}
+			return x.Name
+		case *ast.CompositeLit:
+			var parts []string
+			for _, el := range x.Elts {
+				parts = append(parts, types.ExprString(el))
+			}
+			return "P(" + strings.Join(parts, ",") + ")"
+		case *ast.CallExpr:
+			if se, ok := x.Fun.(*ast.SelectorExpr); ok && len(x.Args) == 1 {
+				a := term(se.X, env)
+				switch se.Sel.Name {
+				case "Add":
+					return "(" + a + "+" + term(x.Args[0], env) + ")"
+				case "Sub":
+					return "(" + a + "-" + term(x.Args[0], env) + ")"
+				case "Mul":
+					if tv, ok := info.Types[x.Args[0]]; ok && tv.Value != nil {
+						return tv.Value.String() + "*" + a
+					}
+				}
+			}
+		}
+		return "?" + types.ExprString(e)
+	}
+	cond := func(e ast.Expr, cmd, prev byte) int {
+		var ev func(e ast.Expr) int
+		ev = func(e ast.Expr) int {
+			e = core.Unparen(e)
+			be, ok := e.(*ast.BinaryExpr)
+			if !ok {
+				return -1
+			}
+			switch be.Op {
+			case token.LOR:
+				a, b := ev(be.X), ev(be.Y)
+				if a == 1 || b == 1 {
+					return 1
+				}
+				if a == 0 && b == 0 {
+					return 0
+				}
+				return -1
+			case token.LAND:
+				a, b := ev(be.X), ev(be.Y)
+				if a == 0 || b == 0 {
+					return 0
+				}
+				if a == 1 && b == 1 {
+					return 1
+				}
+				return -1
+			case token.EQL, token.NEQ:
+				id, ok := core.Unparen(be.X).(*ast.Ident)
+				v, okv := core.ConstInt(info, be.Y)
+				if !ok || !okv {
+					return -1
+				}
+				var actual byte
+				switch core.ObjOf(info, id) {
+				case cmdObj:
+					actual = cmd
+				case prevObj:
+					actual = prev
+				default:
+					return -1
+				}
+				if (byte(v) == actual) == (be.Op == token.EQL) {
+					return 1
+				}
+				return 0
+			}
+			return -1
+		}
+		return ev(e)
+	}
+	type outcome struct {
+		ctrl []string // control points handed to the drawing call, in order
+		env  sym
+		bad  string
+	}
+	var run func(list []ast.Stmt, env sym, cmd, prev byte, out *outcome)
+	run = func(list []ast.Stmt, env sym, cmd, prev byte, out *outcome) {
+		for _, st := range list {
+			switch x := st.(type) {
+			case *ast.AssignStmt:
+				if len(x.Lhs) != len(x.Rhs) {
+					continue
+				}
+				vals := make([]string, len(x.Rhs))
+				for i := range x.Rhs {
+					vals[i] = term(x.Rhs[i], env)
+				}
+				for i, l := range x.Lhs {
+					if id, ok := l.(*ast.Ident); ok {
+						if o := core.ObjOf(info, id); o != nil && isNamed(o.Type(), "tdewolff/canvas", "Point") {
+							env[o] = vals[i]
+						}
+					}
+				}
+			case *ast.IfStmt:
+				switch cond(x.Cond, cmd, prev) {
+				case 1:
+					run(x.Body.List, env, cmd, prev, out)
+				case 0:
+					if eb, ok := x.Else.(*ast.BlockStmt); ok {
+						run(eb.List, env, cmd, prev, out)
+					}
+				default:
+					out.bad = "condition `" + types.ExprString(x.Cond) + "` cannot be decided"
+				}
+			case *ast.ExprStmt:
+				call, ok := x.X.(*ast.CallExpr)
+				if !ok {
+					continue
+				}
+				if f := core.CalleeOf(info, call); f != nil && (f.Name() == "QuadTo" || f.Name() == "CubeTo") {
+					for i := 0; i+1 < len(call.Args)-2; i += 2 {
+						sx, ok1 := core.Unparen(call.Args[i]).(*ast.SelectorExpr)
+						sy, ok2 := core.Unparen(call.Args[i+1]).(*ast.SelectorExpr)
+						if !ok1 || !ok2 || sx.Sel.Name != "X" || sy.Sel.Name != "Y" || types.ExprString(sx.X) != types.ExprString(sy.X) {
+							out.bad = "control point arguments are not the X and Y of one point"
+							continue
+						}
+						out.ctrl = append(out.ctrl, term(sx.X, env))
+					}
+				}
+			}
+		}
+	}
+	n := 0
+	for _, fam := range []struct {
+		letter string
+		family []byte
+		nctrl  int
+	}{{"S", []byte("CcSs"), 2}, {"T", []byte("QqTt"), 1}} {
+		cc := clauses[fam.letter]
+		// the remembered control point: the Point variable on the right of `.Sub(` in the reflection
+		var mem types.Object
+		ast.Inspect(&ast.BlockStmt{List: cc.Body}, func(k ast.Node) bool {
+			if call, ok := k.(*ast.CallExpr); ok && len(call.Args) == 1 {
+				if se, ok := call.Fun.(*ast.SelectorExpr); ok && se.Sel.Name == "Sub" {
+					if id, ok := core.Unparen(call.Args[0]).(*ast.Ident); ok && mem == nil {
+						mem = core.ObjOf(info, id)
+					}
+				}
+			}
+			return true
+		})
+		for _, lower := range []bool{false, true} {
+			cmd := fam.letter[0]
+			if lower {
+				cmd |= 0x20
+			}
+			for _, inFamily := range []bool{true, false} {
+				prev := byte('L')
+				if inFamily {
+					prev = fam.family[0]
+				}
+				n++
+				key := fmt.Sprintf("canvas.ParseSVGPath|'%c' after '%c'|implied control point", cmd, prev)
+				env := sym{}
+				out := &outcome{env: env}
+				run(cc.Body, env, cmd, prev, out)
+				memName := "?"
+				if mem != nil {
+					memName = mem.Name()
+				}
+				want := "p0"
+				// the current point: the Point variable added for relative commands
+				cur := ""
+				ast.Inspect(&ast.BlockStmt{List: cc.Body}, func(k ast.Node) bool {
+					if call, ok := k.(*ast.CallExpr); ok && len(call.Args) == 1 && cur == "" {
+						if se, ok := call.Fun.(*ast.SelectorExpr); ok && se.Sel.Name == "Add" {
+							cur = types.ExprString(call.Args[0])
+						}
+					}
+					return true
+				})
+				if cur == "" {
+					cur = "p0"
+				}
+				want = cur
+				if inFamily {
+					want = "(2*" + cur + "-" + memName + ")"
+				}
+				switch {
+				case out.bad != "":
+					r.Fail("E11.svg-smooth", key, c.Pos(cc.Pos()), "the case cannot be evaluated: "+out.bad)
+				case len(out.ctrl) != fam.nctrl:
+					r.Fail("E11.svg-smooth", key, c.Pos(cc.Pos()), fmt.Sprintf("expected one drawing call with %d control point(s), found %d", fam.nctrl, len(out.ctrl)))
+				case out.ctrl[0] != want:
+					r.Fail("E11.svg-smooth", key, c.Pos(cc.Pos()), fmt.Sprintf("the implied control point is %s, the SVG rule gives %s (the reflection of the previous control point only after a command of the same family, the current point otherwise)", out.ctrl[0], want))
+				case mem == nil || env[mem] != out.ctrl[len(out.ctrl)-1]:
+					got := "unchanged"
+					if mem != nil && env[mem] != "" {
+						got = env[mem]
+					}
+					r.Fail("E11.svg-smooth", key, c.Pos(cc.Pos()), fmt.Sprintf("after the case the remembered control point `%s` is %s, not the control point %s next to the curve's end: a following smooth command reflects the wrong point", memName, got, out.ctrl[len(out.ctrl)-1]))
+				default:
+					r.OK("E11.svg-smooth", key, c.Pos(cc.Pos()), out.ctrl[0])
+				}
+			}
+		}
+	}
+	r.Count("E11.svg-smooth-cases", n)
+	r.Floor("E11.svg-smooth-cases", 8)
+}
+
+// doubledBefore: in fd, before pos, there is `if len(…)%2 == 1 { arr = append(…, …...) }` assigning arr.
+func doubledBefore(info *types.Info, fd *ast.FuncDecl, arr types.Object, pos token.Pos) bool {
+	doubled := false
+	ast.Inspect(fd.Body, func(k ast.Node) bool {
+		is, ok := k.(*ast.IfStmt)
+		if !ok || is.End() > pos {
+			return true
+		}
+		be, ok := core.Unparen(is.Cond).(*ast.BinaryExpr)
+		if !ok || be.Op != token.EQL {
+			return true
+		}
+		rem, ok := core.Unparen(be.X).(*ast.BinaryExpr)
+		if !ok || rem.Op != token.REM {
+			return true
+		}
+		if v, ok := core.ConstInt(info, be.Y); !ok || v != 1 {
+			return true
+		}
+		for _, s := range is.Body.List {
+			if a2, ok := s.(*ast.AssignStmt); ok && len(a2.Lhs) == 1 && len(a2.Rhs) == 1 {
+				if lid, ok := a2.Lhs[0].(*ast.Ident); ok && core.ObjOf(info, lid) == arr {
+					if ap, ok := core.Unparen(a2.Rhs[0]).(*ast.CallExpr); ok && ap.Ellipsis.IsValid() {
+						if fid, ok := ap.Fun.(*ast.Ident); ok && fid.Name == "append" {
+							doubled = true
+						}
+					}
+				}
+			}
+		}
+		return true
+	})
+	return doubled
+}
+
+// E11DashPeriod: the period of a dash pattern is the sum of the doubled array.
+func E11DashPeriod(c *core.Ctx, r *core.Report) {
+	r.Rule("E11.dash-period", "package canvas: an odd-length dash array is used twice in sequence, so its period is twice its sum. A function that sums a dash array (a []float64 parameter) and combines the sum with the dash offset (math.Mod, += / -= in a loop, or an addition) works on an even-length array: either it doubles an odd array itself before the sum, or every call site passes an array that was doubled in the caller before the call. With the undoubled sum the offset is reduced by half a period for every odd multiple, and dashes and gaps change places")
+	p := c.MustPkg("")
+	info := p.TypesInfo
+	n := 0
+	decls := map[*types.Func]*ast.FuncDecl{}
+	for _, fd := range core.AllFuncDecls(p) {
+		if f, ok := info.Defs[fd.Name].(*types.Func); ok {
+			decls[f] = fd
+		}
+	}
+	for f, fd := range decls {
+		if fd.Body == nil || strings.HasSuffix(c.Fset.Position(fd.Pos()).Filename, "_test.go") {
+			continue
+		}
+		// []float64 parameters with their index
+		type prm struct {
+			o   types.Object
+			idx int
+		}
+		var arrs []prm
+		var offs []types.Object
+		idx := 0
+		for _, fl := range fd.Type.Params.List {
+			for _, nm := range fl.Names {
+				o := info.Defs[nm]
+				if o != nil {
+					if sl, ok := o.Type().Underlying().(*types.Slice); ok {
+						if bt, ok := sl.Elem().Underlying().(*types.Basic); ok && bt.Kind() == types.Float64 {
+							arrs = append(arrs, prm{o, idx})
+						}
+					} else if bt, ok := o.Type().Underlying().(*types.Basic); ok && bt.Kind() == types.Float64 {
+						offs = append(offs, o)
+					}
+				}
+				idx++
+			}
+		}
+		if len(arrs) == 0 || len(offs) == 0 {
+			continue
+		}
+		for _, a := range arrs {
+			// total := Σ a
+			var total types.Object
+			var sumPos token.Pos
+			ast.Inspect(fd.Body, func(m ast.Node) bool {
+				rs, ok := m.(*ast.RangeStmt)
+				if !ok {
+					return true
+				}
+				id, ok := core.Unparen(rs.X).(*ast.Ident)
+				if !ok || core.ObjOf(info, id) != a.o {
+					return true
+				}
+				for _, s := range rs.Body.List {
+					if as, ok := s.(*ast.AssignStmt); ok && as.Tok == token.ADD_ASSIGN && len(as.Lhs) == 1 {
+						if lid, ok := as.Lhs[0].(*ast.Ident); ok {
+							total, sumPos = core.ObjOf(info, lid), rs.Pos()
+						}
+					}
+				}
+				return true
+			})
+			if total == nil {
+				continue
+			}
+			// combined with a float parameter (the offset)?
+			combined := false
+			ast.Inspect(fd.Body, func(m ast.Node) bool {
+				mentions := func(e ast.Node, o types.Object) bool {
+					found := false
+					ast.Inspect(e, func(k ast.Node) bool {
+						if id, ok := k.(*ast.Ident); ok && core.ObjOf(info, id) == o {
+							found = true
+						}
+						return true
+					})
+					return found
+				}
+				switch x := m.(type) {
+				case *ast.BinaryExpr:
+					if x.Op == token.ADD || x.Op == token.SUB {
+						for _, of := range offs {
+							if mentions(x, total) && mentions(x, of) {
+								combined = true
+							}
+						}
+					}
+				case *ast.AssignStmt:
+					if (x.Tok == token.ADD_ASSIGN || x.Tok == token.SUB_ASSIGN) && len(x.Lhs) == 1 {
+						for _, of := range offs {
+							if mentions(x.Lhs[0], of) && mentions(x.Rhs[0], total) {
+								combined = true
+							}
+						}
+					}
+				case *ast.CallExpr:
+					if name, _ := core.MathFunc(info, x); name == "Mod" && mentions(x, total) {
+						combined = true
+					}
+				}
+				return true
+			})
+			if !combined {
+				continue
+			}
+			n++
+			key := "canvas." + core.FuncName(fd) + "|period of the dash array"
+			if doubledBefore(info, fd, a.o, sumPos) {
+				r.OK("E11.dash-period", key, c.Pos(sumPos), "doubled in the function before the sum")
+				continue
+			}
+			// call-site contract
+			bad := ""
+			sites := 0
+			for _, cfd := range decls {
+				if cfd.Body == nil {
+					continue
+				}
+				ast.Inspect(cfd.Body, func(m ast.Node) bool {
+					call, ok := m.(*ast.CallExpr)
+					if !ok || core.CalleeOf(info, call) != f || a.idx >= len(call.Args) {
+						return true
+					}
+					sites++
+					aid, ok := core.Unparen(call.Args[a.idx]).(*ast.Ident)
+					if !ok || !doubledBefore(info, cfd, core.ObjOf(info, aid), call.Pos()) {
+						if bad == "" {
+							bad = fmt.Sprintf("canvas.%s passes `%s`, which is not doubled when odd before the call", core.FuncName(cfd), types.ExprString(call.Args[a.idx]))
+						}
+					}
+					return true
+				})
+			}
+			switch {
+			case bad != "":
+				r.Fail("E11.dash-period", key, c.Pos(sumPos), "the function combines the sum of the dash array with the offset without doubling an odd-length array first, and "+bad+": for an odd-length pattern the sum is half the period")
+			case sites == 0:
+				r.Fail("E11.dash-period", key, c.Pos(sumPos), "the function combines the sum of the dash array with the offset without doubling an odd-length array first, and it has no call site in the package that could establish an even length")
+			default:
+				r.OK("E11.dash-period", key, c.Pos(sumPos), fmt.Sprintf("every one of its %d call sites passes a doubled array", sites))
+			}
+		}
+	}
+	r.Count("E11.dash-period-functions", n)
+	r.Floor("E11.dash-period-functions", 1)
+}
+
+// E11DashOffsetRange: a negative dash offset is brought into range for any number of periods.
+func E11DashOffsetRange(c *core.Ctx, r *core.Report) {
+	r.Rule("E11.dash-offset-range", "wherever a negative dash offset (phase) is normalised with the sum of the pattern — canvas.dashStart, the PDF page writer's SetDashes — the sum is added until the offset is no longer negative (a `for offset < 0` loop) or the offset is reduced with math.Mod; a single addition under `if offset < 0` handles offsets down to minus one period only, and the pattern then starts with a first dash that is too long")
+	n := 0
+	for _, rel := range []string{"", "renderers/pdf", "renderers/ps", "renderers/svg"} {
+		p := c.MustPkg(rel)
+		info := p.TypesInfo
+		for _, fd := range core.AllFuncDecls(p) {
+			if fd.Body == nil || strings.HasSuffix(c.Fset.Position(fd.Pos()).Filename, "_test.go") {
+				continue
+			}
+			fname := p.Types.Name() + "." + core.FuncName(fd)
+			ast.Inspect(fd.Body, func(m ast.Node) bool {
+				is, ok := m.(*ast.IfStmt)
+				if !ok {
+					return true
+				}
+				be, ok := core.Unparen(is.Cond).(*ast.BinaryExpr)
+				if !ok || be.Op != token.LSS {
+					return true
+				}
+				oid, ok := core.Unparen(be.X).(*ast.Ident)
+				if !ok {
+					return true
+				}
+				if v, ok := core.ConstVal(info, be.Y).(interface{ String() string }); !ok || (v.String() != "0" && v.String() != "0.0") {
+					return true
+				}
+				off := core.ObjOf(info, oid)
+				// the body sums a []float64 into a local
+				var total types.Object
+				ast.Inspect(is.Body, func(k ast.Node) bool {
+					if rs, ok := k.(*ast.RangeStmt); ok {
+						if t := info.TypeOf(rs.X); t != nil {
+							if sl, ok := t.Underlying().(*types.Slice); ok {
+								if bt, ok := sl.Elem().Underlying().(*types.Basic); ok && bt.Kind() == types.Float64 {
+									for _, s := range rs.Body.List {
+										if as, ok := s.(*ast.AssignStmt); ok && as.Tok == token.ADD_ASSIGN && len(as.Lhs) == 1 {
+											if lid, ok := as.Lhs[0].(*ast.Ident); ok {
+												total = core.ObjOf(info, lid)
+											}
+										}
+									}
+								}
+							}
+						}
+					}
+					return true
+				})
+				if total == nil {
+					return true
+				}
+				n++
+				key := fname + "|negative offset normalised for any number of periods"
+				mentions := func(e ast.Node, o types.Object) bool {
+					found := false
+					ast.Inspect(e, func(k ast.Node) bool {
+						if id, ok := k.(*ast.Ident); ok && core.ObjOf(info, id) == o {
+							found = true
+						}
+						return true
+					})
+					return found
+				}
+				okForm := false
+				ast.Inspect(is.Body, func(k ast.Node) bool {
+					switch x := k.(type) {
+					case *ast.ForStmt:
+						// for off < 0 { off += total }
+						if x.Cond != nil && mentions(x.Cond, off) && mentions(x.Body, total) && mentions(x.Body, off) {
+							okForm = true
+						}
+					case *ast.CallExpr:
+						if name, _ := core.MathFunc(info, x); name == "Mod" && mentions(x, off) && mentions(x, total) {
+							okForm = true
+						}
+					}
+					return true
+				})
+				if okForm {
+					r.OK("E11.dash-offset-range", key, c.Pos(is.Pos()), "")
+				} else {
+					r.Fail("E11.dash-offset-range", key, c.Pos(is.Pos()), fmt.Sprintf("under `%s` the pattern length is combined with the offset without a loop or math.Mod: offsets below minus one period stay out of range", types.ExprString(is.Cond)))
+				}
+				return true
+			})
+		}
+	}
+	r.Count("E11.negative-offset-sites", n)
+	r.Floor("E11.negative-offset-sites", 2)
+}
+
+// E11DashCover: the end of the element dashStart points at is pos + d[i].
+func E11DashCover(c *core.Ctx, r *core.Report) {
+	r.Rule("E11.dash-cover", "dashStart returns the index i of the current dash or gap and the position pos <= 0 at which it started, so it ends at pos + d[i]. Every caller that combines the two (Path.Dash walks `pos+d[i] < length`, checkDash tests whether the first element covers the whole path) adds them; a difference d[i] - pos counts the consumed part twice")
+	p := c.MustPkg("")
+	info := p.TypesInfo
+	n := 0
+	for _, fd := range core.AllFuncDecls(p) {
+		if fd.Body == nil {
+			continue
+		}
+		fname := "canvas." + core.FuncName(fd)
+		var idx, pos, arr types.Object
+		ast.Inspect(fd.Body, func(m ast.Node) bool {
+			as, ok := m.(*ast.AssignStmt)
+			if !ok || len(as.Lhs) != 2 || len(as.Rhs) != 1 {
+				return true
+			}
+			call, ok := core.Unparen(as.Rhs[0]).(*ast.CallExpr)
+			if !ok || len(call.Args) != 2 {
+				return true
+			}
+			if f := core.CalleeOf(info, call); f == nil || f.Name() != "dashStart" || f.Pkg() != p.Types {
+				return true
+			}
+			if a, ok := as.Lhs[0].(*ast.Ident); ok {
+				idx = core.ObjOf(info, a)
+			}
+			if b, ok := as.Lhs[1].(*ast.Ident); ok {
+				pos = core.ObjOf(info, b)
+			}
+			if a, ok := core.Unparen(call.Args[1]).(*ast.Ident); ok {
+				arr = core.ObjOf(info, a)
+			}
+			return true
+		})
+		if idx == nil || pos == nil || arr == nil {
+			continue
+		}
+		// variables initialised from idx/pos count as the same quantities (i := i0; pos := pos0)
+		alias := map[types.Object]types.Object{idx: idx, pos: pos}
+		ast.Inspect(fd.Body, func(m ast.Node) bool {
+			if as, ok := m.(*ast.AssignStmt); ok && len(as.Lhs) == len(as.Rhs) {
+				for i, l := range as.Lhs {
+					if rid, ok := core.Unparen(as.Rhs[i]).(*ast.Ident); ok {
+						if root, ok := alias[core.ObjOf(info, rid)]; ok {
+							if lid, ok := l.(*ast.Ident); ok {
+								alias[core.ObjOf(info, lid)] = root
+							}
+						}
+					}
+				}
+			}
+			return true
+		})
+		isPos := func(e ast.Expr) bool {
+			id, ok := core.Unparen(e).(*ast.Ident)
+			return ok && alias[core.ObjOf(info, id)] == pos
+		}
+		isElem := func(e ast.Expr) bool {
+			ie, ok := core.Unparen(e).(*ast.IndexExpr)
+			if !ok {
+				return false
+			}
+			a, ok1 := core.Unparen(ie.X).(*ast.Ident)
+			k, ok2 := core.Unparen(ie.Index).(*ast.Ident)
+			return ok1 && ok2 && core.ObjOf(info, a) == arr && alias[core.ObjOf(info, k)] == idx
+		}
+		ord := 0
+		ast.Inspect(fd.Body, func(m ast.Node) bool {
+			be, ok := m.(*ast.BinaryExpr)
+			if !ok || (be.Op != token.ADD && be.Op != token.SUB) {
+				return true
+			}
+			if !(isPos(be.X) && isElem(be.Y) || isElem(be.X) && isPos(be.Y)) {
+				return true
+			}
+			n++
+			ord++
+			key := fmt.Sprintf("%s|end of the current dash element #%d", fname, ord)
+			if be.Op == token.ADD {
+				r.OK("E11.dash-cover", key, c.Pos(be.Pos()), types.ExprString(be))
+			} else {
+				r.Fail("E11.dash-cover", key, c.Pos(be.Pos()), fmt.Sprintf("`%s` subtracts the start position from the element's length: the element that started at pos <= 0 ends at pos + d[i]", types.ExprString(be)))
+			}
+			return true
+		})
+	}
+	r.Count("E11.dash-cover-sites", n)
+	r.Floor("E11.dash-cover-sites", 2)
+}
+
+// E11SubpathLoops: Stroke and Offset treat every sub-path by its own properties.
+func E11SubpathLoops(c *core.Ctx, r *core.Report) {
+	r.Rule("E11.subpath-loop", "Path.Stroke and Path.Offset work sub-path by sub-path (`for … range p.Split()`): inside that loop neither the whole receiver nor a local computed from it before the loop is consulted — orientation (CCW), closedness and the like are properties of the sub-path at hand. A whole-path value (Path.CCW looks at the first sub-path only) applies the first contour's orientation to every contour, and a hole is then settled with the wrong fill rule and disappears")
+	p := c.MustPkg("")
+	info := p.TypesInfo
+	n := 0
+	for _, fname := range []string{"Path.Stroke", "Path.Offset"} {
+		fd := core.MustFuncDecl(p, fname)
+		r.Func("canvas." + fname)
+		recv := recvObj(info, fd)
+		var loop *ast.RangeStmt
+		for _, st := range fd.Body.List {
+			if rs, ok := st.(*ast.RangeStmt); ok {
+				if call, ok := core.Unparen(rs.X).(*ast.CallExpr); ok {
+					if se, ok := call.Fun.(*ast.SelectorExpr); ok && se.Sel.Name == "Split" {
+						if id, ok := core.Unparen(se.X).(*ast.Ident); ok && core.ObjOf(info, id) == recv {
+							loop = rs
+						}
+					}
+				}
+			}
+		}
+		key := "canvas." + fname + "|no whole-path value in the sub-path loop"
+		if loop == nil {
+			r.Fail("E11.subpath-loop", key, c.Pos(fd.Pos()), "the loop over the receiver's sub-paths was not found")
+			continue
+		}
+		n++
+		derived := map[types.Object]bool{}
+		for _, st := range fd.Body.List {
+			if st == ast.Stmt(loop) {
+				break
+			}
+			as, ok := st.(*ast.AssignStmt)
+			if !ok {
+				continue
+			}
+			mentions := false
+			for _, rhs := range as.Rhs {
+				ast.Inspect(rhs, func(m ast.Node) bool {
+					if id, ok := m.(*ast.Ident); ok && (core.ObjOf(info, id) == recv || derived[core.ObjOf(info, id)]) {
+						mentions = true
+					}
+					return true
+				})
+			}
+			if mentions {
+				for _, l := range as.Lhs {
+					if id, ok := l.(*ast.Ident); ok {
+						derived[core.ObjOf(info, id)] = true
+					}
+				}
+			}
+		}
+		whole := ""
+		var wholePos token.Pos
+		ast.Inspect(loop.Body, func(m ast.Node) bool {
+			if id, ok := m.(*ast.Ident); ok && whole == "" {
+				o := core.ObjOf(info, id)
+				if o == recv || derived[o] {
+					whole, wholePos = id.Name, id.Pos()
+				}
+			}
+			return true
+		})
+		if whole == "" {
+			r.OK("E11.subpath-loop", key, c.Pos(loop.Pos()), "")
+		} else {
+			r.Fail("E11.subpath-loop", key, c.Pos(wholePos), fmt.Sprintf("`%s`, which is (derived from) the whole receiver path, is consulted inside the loop over its sub-paths: what is true of the first sub-path decides how every sub-path is offset", whole))
+		}
+	}
+	r.Count("E11.subpath-loops", n)
+	r.Floor("E11.subpath-loops", 2)
+}
